@@ -107,6 +107,16 @@ Slice(v, s, e) ==
   /\ LET len == Views[v].len k == Rel(s, len) f == Rel(e, len) IN
      Step([op |-> "slice", v |-> v, s |-> s, e |-> e,
            res |-> IF Det THEN [r |-> "TypeError"] ELSE [r |-> "ok", bytes |-> Flat([j \in 1..Max(f - k, 0) |-> Chunk(bytes, v, k + j - 1)])]])
+\* slice with a species constructor that answers with an EXISTING view w of the same element type over the same buffer (23.2.3.27
+\* steps 14-15: the bytes are copied one by one in ascending order, so an overlapping target sees bytes already written)
+RECURSIVE FwdCopy(_, _, _, _)
+FwdCopy(b, src, dst, n) == IF n = 0 THEN b ELSE FwdCopy([b EXCEPT ![dst + 1] = b[src + 1]], src + 1, dst + 1, n - 1)
+SliceSpecies(v, w, s, e) ==
+  /\ Views[v].k = Views[w].k /\ UNCHANGED detached
+  /\ LET len == Views[v].len k == Rel(s, len) f == Rel(e, len) count == Max(f - k, 0) es == ES(Views[v].k)
+         ok == ~Det /\ Views[w].len >= count IN
+     /\ bytes' = IF ok THEN FwdCopy(bytes, Views[v].off + k * es, Views[w].off, count * es) ELSE bytes
+     /\ Step([op |-> "sliceSpecies", v |-> v, w |-> w, s |-> s, e |-> e, res |-> IF ok THEN "ok" ELSE "TypeError"])
 Subarray(v, s, e) ==
   /\ Keep
   /\ LET len == IF Det THEN 0 ELSE Views[v].len k == Rel(s, len) f == Rel(e, len) IN
@@ -178,6 +188,7 @@ Next ==
        \/ Reverse(v) \/ Sort(v) \/ ToArray(v) \/ Filter(v)
        \/ \E s \in {0, 1, -1}, e \in {99, 1, -1} : Slice(v, s, e) \/ Subarray(v, s, e)
        \/ \E w \in VIds, o \in {0, 1} : SetFrom(v, w, o)
+       \/ \E w \in VIds, s \in {0, 1}, e \in {99, 2} : SliceSpecies(v, w, s, e)
        \/ \E o \in {0, 1, 3} : SetArr(v, o)
        \/ \E m \in {"fill", "copyWithin", "put", "set", "slice", "subarray", "sort", "filter", "map", "indexOf", "join", "reverse-getter",
                        "toLocaleString", "every", "some", "find", "findLast", "reduce", "reduceRight", "lastIndexOf", "includes", "forEach-set"} : DetachDuring(v, m)
@@ -201,7 +212,7 @@ DvWindow == [][(act'.op = "dvset" /\ detached' = "F") => \A j \in 1..BufLen : (j
 ViewFamily == << [k |-> "u8", off |-> 0, len |-> 8], [k |-> "u8", off |-> 2, len |-> 4], [k |-> "i8", off |-> 1, len |-> 3],
                  [k |-> "u16", off |-> 2, len |-> 2], [k |-> "i16", off |-> 0, len |-> 4], [k |-> "u32", off |-> 4, len |-> 1],
                  [k |-> "u8c", off |-> 3, len |-> 2], [k |-> "f64", off |-> 0, len |-> 1], [k |-> "f32", off |-> 4, len |-> 1],
-                 [k |-> "u16", off |-> 4, len |-> 1], [k |-> "i8", off |-> 2, len |-> 2] >>
+                 [k |-> "u16", off |-> 4, len |-> 1], [k |-> "i8", off |-> 2, len |-> 2], [k |-> "i16", off |-> 2, len |-> 3] >>
 St == [bytes |-> bytes, detached |-> detached, n |-> nops]
 StP == [bytes |-> bytes', detached |-> detached', n |-> nops']
 Emit == PrintT(ToJson([f |-> St, l |-> act', t |-> StP]))
